@@ -32,6 +32,10 @@ def dispatch (j : Json) : List (String × Json) :=
   | "yenc" => En.handle j
   | "yencfuzz" => En.handleFuzz j
   | "yvals" => V.handle j
+  | "rm" =>
+    -- re-match() with a plain alphanumeric pattern (unanchored): the subject contains the pattern
+    let r := if ((jstr j "s").splitOn (jstr j "p")).length > 1 then "rm:true" else "rm:false"
+    [("m", Json.str r), ("s", Json.str r)]
   | k => [("m", Json.str ("unknown-kind:" ++ k)), ("s", Json.str "unknown-kind")]
 
 /-- C06: the sub-cases are ordinary c01 / c02 cases; the model's prediction is what each gives in isolation -/
